@@ -172,7 +172,7 @@ theorem driver_end {env : Env} {s s2 : State} {n op eres fuel : Nat} {pr : PerKe
     exact ⟨ψ, pot_perkeys P hpop⟩
   · -- forcedU
     intro key p d hmem hne
-    refine H.forcedU key p d ?_ hmem
+    refine (V_stamp_iff _ p).2 ((V_stamp_iff σ p).1 (H.forcedU key p d ?_ hmem))
     rw [huk]
     have hl : (pr.prevNodes.lookup key).isSome = true := lookup_isSome_of_mem hmem
     rw [← Hop.dom key] at hl
